@@ -29,6 +29,11 @@ ScC12 ==
     \cup Framed("strict", FALSE, TRUE, Two(3, 2), {<<4, 3>>, <<3, 1, 3>>, <<7>>})
     \cup Framed("strict", TRUE, TRUE, Two(2, 2), {<<3, 3>>})
 
+\* small sets for the quick tier's liveness and deviation runs
+ScC12Live ==
+    Framed("identity", FALSE, TRUE, D(3), {<<1, 2>>})
+    \cup Framed("strict", FALSE, TRUE, Two(2, 1), {<<3, 2>>})
+
 \* bodies of 12 units (thorough tier, stage 1 only)
 ScC12Big ==
     Framed("identity", FALSE, TRUE, D(12), {<<12>>, <<5, 7>>, <<1, 4, 7>>})
@@ -40,6 +45,7 @@ ScC12Big ==
 ScC13Tiny ==
     Framed("identity", FALSE, TRUE, D(3), {<<1, 2>>})
     \cup Framed("strict", FALSE, TRUE, One(2), {<<2, 1>>})
+ScC13Dev == ScC13Tiny \cup Framed("strict", TRUE, TRUE, One(2), {<<2, 1>>})
 ScC13 ==
     Framed("identity", FALSE, TRUE, D(4), {<<4>>, <<1, 3>>})
     \cup Framed("lenient", FALSE, TRUE, Two(2, 1), {<<2, 3>>, <<5>>})
@@ -56,6 +62,9 @@ AllApis == {"reads", "stream", "chunked", "iter", "preload"}
 ReadsOnly == {"reads"}
 GensOnly == {"stream", "chunked", "iter", "preload"}
 AllDefects == {"D6", "D7", "D11", "F1", "F2", "F3", "F4"}
+\* the deviations the code at the current commit still has (recorded findings); D6, D7, D11, F1, F3 were repaired in
+\* /repo and are kept only as must-be-refuted runs (TLC must exhibit the clause each one breaks)
+AsIs == {"F2", "F4"}
 NoDefects == {}
 JustD6 == {"D6"}
 JustD7 == {"D7"}
